@@ -83,3 +83,17 @@ func vmBsonID() string {
 
 // the configuration file is not part of any harness
 //verif:noop (*github.com/tidwall/tile38/internal/server.Config).write
+
+// vhDeadline: the deadline of an object (0 = none) and whether the object exists
+func vhDeadline(s *Server, key, id string) (int64, bool) {
+	col, _ := s.cols.Get(key)
+	if col == nil {
+		return 0, false
+	}
+	o := col.Get(id)
+	if o == nil {
+		return 0, false
+	}
+	return o.Expires(), true
+}
+
